@@ -225,6 +225,8 @@ func checkC16(c *Ctx) {
 	r.Rule("R16c-index", "constant indexes into descriptor-derived slices are dominated by a length / IsMap guard", 5)
 	r.Rule("R16c-errpair", "a pointer returned together with an error is not dereferenced on a path on which that error is known to be non-nil", 9)
 	errPairedValueUse(c, "R16c-errpair")
+	r.Rule("R16g", "nothing but the encoded response is written to standard output: no fmt.Print*/println, no write to os.Stdout in generator packages other than the plugin's response writer", 1)
+	stdoutDiscipline(c, "R16g")
 
 	// ---- R16a
 	for _, comp := range c.sccs() {
@@ -1271,4 +1273,51 @@ func errPairedValueUse(c *Ctx, rid string) {
 	if n == 0 {
 		r.Unres(rid, "value/error pairs in generator packages", "", "none found")
 	}
+}
+
+// stdoutDiscipline — R16g. protoc reads the plugin's standard output as one CodeGeneratorResponse. A diagnostic printed
+// there (fmt.Printf of a warning) prefixes the response bytes: the plugin exits 0 but its answer does not parse — neither
+// files nor an error. Allowed: os.Stdout.Write(<marshalled response>) in package main (protogen's Run does the same), and
+// any writer other than standard output (os.Stderr).
+func stdoutDiscipline(c *Ctx, rid string) {
+	r := c.R
+	n, nAllowed := 0, 0
+	for fn, decl := range c.P.Decls {
+		if decl.Body == nil || !isRepoGenPkg(fn) || strings.Contains(c.P.Pos(decl.Pos()), "_test.go") {
+			continue
+		}
+		info := c.P.DeclPkg[fn].TypesInfo
+		inMain := strings.Contains(fn.Pkg().Path(), "/cmd/")
+		ast.Inspect(decl.Body, func(nd ast.Node) bool {
+			switch x := nd.(type) {
+			case *ast.CallExpr:
+				if id, ok := x.Fun.(*ast.Ident); ok && (id.Name == "print" || id.Name == "println") {
+					if _, isB := info.ObjectOf(id).(*types.Builtin); isB {
+						return true // builtin print writes to stderr
+					}
+				}
+				cal := Callee(info, x)
+				if cal == nil || cal.Pkg() == nil {
+					return true
+				}
+				if cal.Pkg().Path() == "fmt" && (cal.Name() == "Print" || cal.Name() == "Printf" || cal.Name() == "Println") {
+					n++
+					r.Bad(rid, FuncName(fn)+" prints to standard output with fmt."+cal.Name(), c.P.Pos(x.Pos()),
+						FuncName(fn)+" calls fmt."+cal.Name()+": standard output is the plugin's response channel, so the text precedes the encoded CodeGeneratorResponse and protoc can parse neither files nor an error out of it", nil)
+				}
+			case *ast.SelectorExpr:
+				if v, ok := info.Uses[x.Sel].(*types.Var); ok && v.Pkg() != nil && v.Pkg().Path() == "os" && v.Name() == "Stdout" {
+					n++
+					if inMain {
+						nAllowed++
+						return true // the response writer of the plugin main
+					}
+					r.Bad(rid, FuncName(fn)+" uses os.Stdout", c.P.Pos(x.Pos()),
+						FuncName(fn)+" writes to os.Stdout outside the plugin's response writer: anything written there corrupts the encoded response", nil)
+				}
+			}
+			return true
+		})
+	}
+	r.OKd(rid, "standard output is used by the response writer only", "", map[string]any{"stdout_uses": n, "in_plugin_main": nAllowed})
 }
